@@ -228,6 +228,7 @@ func runC05(c *run.Ctx, s *kit.Summary) {
 		cliRuns(c, s, r)
 		cliRepeatedRun(c, s, r)
 		flakyRuns(c, s, r)
+		slowTailRuns(c, s, r)
 	}
 	if !raceChild && c.Replay == "" {
 		raceRun(c, s)
